@@ -96,7 +96,7 @@ impl Property for C01 {
     fn cases(&self, tier: Tier) -> u64 {
         match tier {
             Tier::Quick => 70_000,
-            Tier::Thorough => 1_500_000,
+            Tier::Thorough => 600_000,
         }
     }
     fn required_labels(&self, _tier: Tier) -> Vec<&'static str> {
